@@ -28,6 +28,13 @@ Oracle: for seeded model recipes M (same variable / parameter *names* in every m
         callbacks / strict / options={...} / keywords the back end rejects; every NLP and LP method) before a model is solved
         with defaults and with its own options: the optimum of its recipe computed in NumPy (KKT systems of all active sets,
         vertex enumeration), its twin from fresh objects solved before the other models, and a fresh process.
+        Models whose nodes hold NUMPY ARRAYS (x.dot(Q @ x) / QuadraticForm matrices, LinearCombination coefficient vectors,
+        matrix-vector products, MatrixParameter copies) of dimension 1 … 40 — sizes around 2, 4, 8, 16, 32 and random ones — built
+        after 1–6 earlier independent models over same-shaped arrays that were compiled / differentiated (gradient, Jacobian,
+        Hessian, symbolic; never solved) and then DROPPED and collected (with and without emptying the LRU caches), the new
+        arrays being allocated until they sit on the ADDRESS OF A DEAD ARRAY, or whose live arrays were OVERWRITTEN IN PLACE:
+        value, gradient, Jacobian rows of the bare nodes, Hessian, symbolic gradients, optimum against NumPy on the model's own
+        arrays.
 """
 from __future__ import annotations
 
@@ -2290,6 +2297,301 @@ def opts_family(rep, ref, plan, stop_at_first=False, max_failures=3):
     return None
 
 
+# ----------------------------------------------------------------------------- array data: lifetime / address reuse × size
+
+ARR_KINDS = ["quadform", "qfclass", "qfbare", "lincomb", "matvec", "matparam"]
+ARR_EDGE_DIMS = [1, 2, 3, 4, 7, 8, 9, 15, 16, 17, 31, 32, 33, 40]      # around the powers of two a size gate is likely to use
+ARR_MAX_DIM = 40
+ARR_MODES = ["drop", "drop_evict", "mutate", "mutate_drop"]
+ARR_USES = ["grad", "jac", "hess", "sym", "all", "fn"]                 # what the earlier models went through (never a solve:
+#                                                                        a solve pins the model in the LRU caches)
+
+
+def arr_values(seed: int, n: int, spd: bool):
+    """the numbers of one model: Q (n×n, plain — or symmetric positive definite and well conditioned if `spd`), b, c (n)"""
+    r = np.random.default_rng(seed)
+    if spd:
+        G = r.uniform(-1.0, 1.0, size=(n, n))
+        Q = G @ G.T / n + (1.0 + 0.5 * r.uniform()) * np.eye(n)
+    else:
+        Q = np.round(r.uniform(-2.0, 2.0, size=(n, n)), 3)
+    return Q, np.round(r.uniform(-2.0, 2.0, size=n), 3), np.round(r.uniform(0.25, 2.0, size=n), 3)
+
+
+def arr_alloc(kind: str, role: str, values):
+    """the array OBJECT a model will hold for `values`: a fresh ndarray, or the copy a MatrixParameter keeps"""
+    if kind == "matparam" and role == "Q":
+        from optyx import MatrixParameter
+
+        return MatrixParameter("S", values).values
+    return np.array(values, dtype=float)
+
+
+def arr_build(kind: str, n: int, arrays):
+    """a model over x[0..n-1] whose nodes hold the arrays Q, b, c themselves.  Its function is always
+    f(x) = x'Qx·[q] + (b·x)(c·x)·[bc] + l·x  with the NumPy description returned under "np" (read from the arrays at judge time)"""
+    from optyx import VectorVariable, Problem
+    from optyx.core.vectors import LinearCombination
+    from optyx.core.matrices import QuadraticForm
+
+    Q, b, c = arrays
+    x = VectorVariable("x", n)
+    roots = []
+    if kind in ("quadform", "matparam"):
+        qf = x.dot(Q @ x)
+        obj, desc, roots = qf - b @ x, (1.0, 0.0, "b", -1.0), [qf]
+    elif kind == "qfclass":
+        qf = QuadraticForm(x, Q)
+        obj, desc, roots = qf + b @ x, (1.0, 0.0, "b", 1.0), [qf]
+    elif kind == "qfbare":
+        obj, desc = x.dot(Q @ x), (1.0, 0.0, "b", 0.0)
+    elif kind == "lincomb":
+        lb_, lc_ = LinearCombination(b, x), LinearCombination(c, x)
+        obj, desc, roots = lb_ * lc_ + b @ x, (0.0, 1.0, "b", 1.0), [lb_, lc_]
+    else:       # matvec: (Q x)·x + c·x
+        obj, desc = (Q @ x).dot(x) + c @ x, (1.0, 0.0, "c", 1.0)
+        roots = [c @ x]
+    prob = Problem()
+    prob.minimize(obj)
+    return {"kind": kind, "n": n, "x": x, "vars": list(x), "obj": obj, "roots": roots, "prob": prob, "arrays": arrays, "np": desc}
+
+
+def arr_points(n):
+    i = np.arange(n, dtype=float)
+    return [np.cos(1.3 * i) * 2.0, np.sin(0.7 * i + 0.3) * 1.5 - 0.25]
+
+
+def arr_hess_ok(kind, n):
+    return n <= 12 if kind == "matvec" else True       # element-wise dot products: n² second derivatives of n² terms
+
+
+def arr_use(M, use: str):
+    """an earlier model goes through the derivative machinery (no solve)"""
+    from optyx.core.compiler import compile_expression, compile_gradient
+    from optyx.core.autodiff import compile_jacobian, compile_hessian, gradient
+
+    obj, vs, p = M["obj"], M["vars"], arr_points(M["n"])[1]
+    with warnings.catch_warnings(), np.errstate(all="ignore"):
+        warnings.simplefilter("ignore")
+        if use in ("fn", "all"):
+            compile_expression(obj, vs)(p)
+        if use in ("grad", "all"):
+            compile_gradient(obj, vs)(p)
+            for r in M["roots"]:
+                compile_gradient(r, vs)(p)
+        if use in ("jac", "all"):
+            compile_jacobian([obj] + M["roots"], vs)(p)
+        if use in ("hess", "all") and arr_hess_ok(M["kind"], M["n"]):
+            compile_hessian(obj, vs)(p)
+        if use in ("sym", "all"):
+            env = {v.name: float(z) for v, z in zip(vs, p)}
+            for v in (vs[0], vs[-1]):
+                gradient(obj, v).evaluate(env)
+            for r in M["roots"]:
+                gradient(r, vs[len(vs) // 2]).evaluate(env)
+
+
+def arr_observe(M, solve: bool) -> dict:
+    from optyx.core.compiler import compile_expression, compile_gradient
+    from optyx.core.autodiff import compile_jacobian, compile_hessian, gradient
+
+    obj, vs, n = M["obj"], M["vars"], M["n"]
+    out = {"varnames": [v.name for v in vs]}
+    idx = sorted({0, n // 2, n - 1})
+    with warnings.catch_warnings(), np.errstate(all="ignore"):
+        warnings.simplefilter("ignore")
+        fn, gf = compile_expression(obj, vs), compile_gradient(obj, vs)
+        jf = compile_jacobian([obj] + M["roots"], vs)
+        hf = compile_hessian(obj, vs) if arr_hess_ok(M["kind"], n) else None
+        sym = [gradient(obj, vs[i]) for i in idx]
+        rsym = [[gradient(r, vs[i]) for i in idx] for r in M["roots"]]
+        rg = [compile_gradient(r, vs) for r in M["roots"]]
+        for k, p in enumerate(arr_points(n)):
+            env = {v.name: float(z) for v, z in zip(vs, p)}
+            out[f"eval{k}"] = _f(np.asarray(obj.evaluate(env)))
+            out[f"fn{k}"] = _f(np.asarray(fn(p)))
+            out[f"grad{k}"] = _arr(gf(p))
+            out[f"jac{k}"] = _arr(jf(p))
+            out[f"symgrad{k}"] = [_f(np.asarray(g.evaluate(env))) for g in sym]
+            out[f"rootgrad{k}"] = [_arr(g(p)) for g in rg]
+            out[f"rootsym{k}"] = [[_f(np.asarray(g.evaluate(env))) for g in gs] for gs in rsym]
+            if hf is not None:
+                out[f"hess{k}"] = _arr(hf(p))
+        if solve:
+            try:
+                s = M["prob"].solve(method="SLSQP")
+                out["solve"] = [s.status.name, [float((s.values or {}).get(v.name, float("nan"))) for v in vs],
+                                None if s.objective_value is None else float(s.objective_value)]
+            except Exception as ex:  # noqa: BLE001
+                out["solve"] = ["raise:" + type(ex).__name__]
+    return out
+
+
+def arr_judge(M, got, solve: bool):
+    """every observation against plain NumPy on the arrays the model holds NOW; (where, got, expected) of the first disagreement"""
+    Q, b, c = (np.array(a, dtype=float) for a in M["arrays"])
+    n = M["n"]
+    wq, wbc, lname, wl = M["np"]
+    l = wl * (b if lname == "b" else c)
+    H = wq * (Q + Q.T) + wbc * (np.outer(b, c) + np.outer(c, b))
+    idx = sorted({0, n // 2, n - 1})
+    kind = M["kind"]
+    if kind in ("quadform", "matparam", "qfclass"):
+        roots = [(Q + Q.T, np.zeros(n))]
+    elif kind == "lincomb":
+        roots = [(np.zeros((n, n)), b), (np.zeros((n, n)), c)]
+    elif kind == "matvec":
+        roots = [(np.zeros((n, n)), c)]
+    else:
+        roots = []
+    if got["varnames"] != [f"x[{i}]" for i in range(n)]:
+        return "/varnames", got["varnames"], "x[0..n-1]"
+    for k, p in enumerate(arr_points(n)):
+        ap = np.abs(p)
+        f = wq * float(p @ Q @ p) + wbc * float(b @ p) * float(c @ p) + float(l @ p)
+        fs = float(ap @ np.abs(Q) @ ap) + float(np.abs(b) @ ap) * float(np.abs(c) @ ap) + float(np.abs(l) @ ap)
+        g = H @ p + l
+        gs = float(np.max(np.abs(H) @ ap + np.abs(l)))
+        for key in (f"eval{k}", f"fn{k}"):
+            if not isinstance(got[key], float) or abs(got[key] - f) > 1e-10 * (1.0 + fs):
+                return "/" + key, got[key], f
+        if not _close(_num(got[f"grad{k}"]), g, 0.0, 1e-10 * (1.0 + gs)):
+            return f"/grad{k}", got[f"grad{k}"], g.tolist()
+        if not _close(_num(got[f"symgrad{k}"]), g[idx], 0.0, 1e-10 * (1.0 + gs)):
+            return f"/symgrad{k}", got[f"symgrad{k}"], g[idx].tolist()
+        rows = [g] + [A @ p + d for A, d in roots]
+        if not _close(_num(got[f"jac{k}"]), np.vstack(rows), 0.0, 1e-10 * (1.0 + gs)):
+            return f"/jac{k}", got[f"jac{k}"][:3 * n], np.vstack(rows).ravel().tolist()[:3 * n]
+        for j, (A, d) in enumerate(roots):
+            if not _close(_num(got[f"rootgrad{k}"][j]), A @ p + d, 0.0, 1e-10 * (1.0 + gs)):
+                return f"/rootgrad{k}[{j}]", got[f"rootgrad{k}"][j], (A @ p + d).tolist()
+            if not _close(_num(got[f"rootsym{k}"][j]), (A @ p + d)[idx], 0.0, 1e-10 * (1.0 + gs)):
+                return f"/rootsym{k}[{j}]", got[f"rootsym{k}"][j], (A @ p + d)[idx].tolist()
+        if f"hess{k}" in got and not _close(_num(got[f"hess{k}"]), H, 0.0, 1e-10 * (1.0 + float(np.max(np.abs(H))))):
+            return f"/hess{k}", got[f"hess{k}"][:2 * n], H.ravel().tolist()[:2 * n]
+    if solve:
+        xstar = np.linalg.solve(H, -l)
+        fstar = 0.5 * float(xstar @ H @ xstar) + float(l @ xstar)
+        ent = got["solve"]
+        want = ["OPTIMAL", np.round(xstar, 6).tolist(), round(fstar, 6)]
+        if len(ent) < 3 or ent[0] != "OPTIMAL" or ent[2] is None:
+            return "/solve", ent, want
+        if not _close(_num(ent[1]), xstar, 2e-3, 2e-3) or not _close([ent[2]], [fstar], 1e-4, 1e-4):
+            return "/solve", ent, want
+    return None
+
+
+def arr_plan(rng, thorough, per_combo=None):
+    """cases [kind, n, mode, use, k earlier models, other-kind?, solve?, seed]: every kind × mode at an edge size, a size drawn
+    from 1..40 and one from the upper half (so that size-gated code is reached by every kind in every mode)"""
+    plan = []
+    off = rng.randint(0, len(ARR_EDGE_DIMS) - 1)
+    i = 0
+    for kind in ARR_KINDS:
+        for mode in ARR_MODES:
+            dims = [ARR_EDGE_DIMS[(off + i) % len(ARR_EDGE_DIMS)], rng.randint(1, ARR_MAX_DIM), rng.randint(16, ARR_MAX_DIM)]
+            dims += [rng.randint(1, ARR_MAX_DIM) for _ in range((per_combo or (6 if thorough else 3)) - 3)]
+            for n in dims:
+                use = ARR_USES[(off + i) % len(ARR_USES)] if rng.random() < 0.6 else rng.choice(ARR_USES[:5])
+                solve = kind in ("quadform", "qfclass", "qfbare", "matparam") and n <= 20 and rng.random() < 0.4
+                plan.append([kind, n, mode, use, rng.randint(1, 6), rng.random() < 0.3, bool(solve), rng.randint(0, 2**31 - 1)])
+                i += 1
+    return plan
+
+
+def arr_case(case):
+    """one history.  drop / drop_evict: k earlier models, each over arrays of its own, are built, differentiated and dropped
+    (drop_evict: the LRU caches are emptied as a history beyond their capacity would), everything is collected; the arrays of
+    the independent model M are then allocated until they sit at the address of a dead array of the same shape.
+    mutate / mutate_drop: the earlier model is built over live arrays, which are overwritten in place with M's numbers before
+    M is built over them (mutate_drop: the earlier model is dropped and collected first).
+    Returns (M, observations, which of M's arrays (Q, b, c) sit on a recycled address / were overwritten in place, solve?)"""
+    import gc
+
+    kind, n, mode, use, k, other, solve, seed = case
+    okinds = [kk for kk in ARR_KINDS if kk != kind]
+    mvals = arr_values(seed, n, solve)
+    recycled = ""
+    if mode in ("drop", "drop_evict"):
+        dead = set()
+        for j in range(k):
+            nk = okinds[(seed + j) % len(okinds)] if other and j % 2 == 0 else kind
+            arrays = tuple(arr_alloc(nk, role, v) for role, v in zip("Qbc", arr_values(seed + 1 + j, n, solve and j % 2 == 1)))
+            N = arr_build(nk, n, arrays)
+            arr_use(N, use)
+            dead.update(id(a) for a in arrays)
+            del N, arrays
+        if mode == "drop_evict":
+            clear_lru()
+        gc.collect()
+        spare, arrays = [], []
+        for role, v in zip("Qbc", mvals):
+            a = None
+            for _ in range(40):
+                cand = arr_alloc(kind, role, v)
+                if id(cand) in dead:
+                    a = cand
+                    dead.discard(id(cand))
+                    recycled += role
+                    break
+                spare.append(cand)
+            arrays.append(a if a is not None else arr_alloc(kind, role, v))
+        arrays = tuple(arrays)
+        del spare
+    else:
+        nk = okinds[seed % len(okinds)] if other else kind
+        arrays = tuple(arr_alloc(kind, role, v) for role, v in zip("Qbc", arr_values(seed + 1, n, solve)))
+        N = arr_build(nk, n, arrays)
+        arr_use(N, use)
+        if mode == "mutate_drop":
+            del N
+            clear_lru()
+            gc.collect()
+        for a, v in zip(arrays, mvals):
+            a[...] = v
+        recycled = "Qbc"
+    M = arr_build(kind, n, arrays)
+    return M, arr_observe(M, solve), recycled, solve
+
+
+def arr_family(rep, plan, stop_at_first=False, max_failures=3):
+    """independent models with array data after earlier models whose arrays died (address reuse) or were overwritten in place"""
+    import gc
+
+    fails = 0
+    try:
+        for case in plan:
+            clear_lru()
+            M, got, recycled, solve = arr_case(case)
+            rep.evaluations += 1
+            key = f"arrays:{case[0]}:{case[2]}"
+            rep.histogram[key] = rep.histogram.get(key, 0) + 1
+            rep.histogram["arrays:on_recycled_or_mutated_storage"] = rep.histogram.get("arrays:on_recycled_or_mutated_storage", 0) + int(bool(recycled))
+            if case[1] >= 16:
+                rep.histogram["arrays:n>=16"] = rep.histogram.get("arrays:n>=16", 0) + 1
+            if recycled:
+                rep.nontrivial.add(("arrays", json.dumps(case)))
+            verdict = arr_judge(M, got, solve)
+            del M
+            gc.collect()
+            if verdict:
+                bad = {"what": "a model whose nodes hold NumPy arrays (quadratic-form matrix / coefficient vectors), built after earlier "
+                               "independent models over same-shaped arrays were differentiated and then dropped or overwritten in place, "
+                               "disagrees with NumPy evaluated on its own arrays",
+                       "arrays": case, "n": case[1], "history": case[2], "earlier_use": case[3],
+                       "arrays_on_recycled_or_mutated_storage": recycled,
+                       "where": verdict[0], "got": str(verdict[1])[:300], "expected": str(verdict[2])[:300]}
+                rep.oracle_failures.append(bad)
+                fails += 1
+                if stop_at_first:
+                    return bad
+                if fails >= max_failures:
+                    break
+    finally:
+        clear_lru()
+    return None
+
+
 # ----------------------------------------------------------------------------- object lifetime: discard-and-rebuild
 
 LIFE_KINDS = ["lin", "quad", "quart", "nonpoly", "param"]
@@ -2806,6 +3108,9 @@ def run(ctx) -> core.Report:
         # other models solved with explicit per-call options (every method, caps / tolerances / starting points / odd keywords),
         # then a model solved with defaults: NumPy optimum of its recipe, its twin solved before them, a fresh process
         opts_family(rep, ref, opts)
+        # models holding NumPy arrays of dimension 1 … 40 after earlier models whose same-shaped arrays were differentiated and
+        # then died (their addresses are handed out again) or were overwritten in place: NumPy on the model's own arrays
+        arr_family(rep, arr_plan(core.Rng(ctx["seed"] * 1000003 + 141414), thorough))
         # prefixes that end in exceptions: interpreter-wide state untouched, later observations unaffected
         before = interpreter_state()
         outcomes = faulting_prefix()
@@ -2848,6 +3153,10 @@ def run(ctx) -> core.Report:
 
 def search(ctx, rep):
     rng = core.Rng(ctx["seed"] + 15485863)
+    # array-holding models after earlier models whose arrays died / were overwritten (judged by NumPy: no reference needed)
+    found = arr_family(core.Report(), arr_plan(rng, False, per_combo=6), stop_at_first=True)
+    if found:
+        return found
     # models solved after other models were solved with explicit per-call options (NumPy optimum + twin: no reference needed)
     found = opts_family(core.Report(), None, opts_plan(rng, False, reps=3), stop_at_first=True)
     if found:
@@ -2898,6 +3207,11 @@ def replay(payload) -> bool:
             slack_family(rep, None, ref, th, only=i)
         finally:
             clear_lru()
+        print("failures:", rep.oracle_failures[:1])
+        return not rep.oracle_failures
+    if "arrays" in f:
+        rep = core.Report()
+        arr_family(rep, [f["arrays"]] * 5)
         print("failures:", rep.oracle_failures[:1])
         return not rep.oracle_failures
     if "opts" in f:
